@@ -86,8 +86,11 @@ fn wal_json(es: &[WalEntry]) -> Vec<Value> {
 }
 
 /// The observation sequence of the property. Never panics itself: panics are caught by the caller.
-fn probe(root: &Path) -> Probe {
-  let index = match Index::open(idx::opts(root, false)) {
+fn probe(root: &Path, create_if_missing: bool) -> Probe {
+  let mut o = idx::opts(root, false);
+  // applications open existing indexes both ways (the CLI write path and the test helpers pass true)
+  o.create_if_missing = create_if_missing;
+  let index = match Index::open(o) {
     Ok(i) => i,
     Err(e) => return Probe::Error(format!("open: {e:#}")),
   };
@@ -105,8 +108,14 @@ fn probe(root: &Path) -> Probe {
         }
         answers.push(v);
       }
-      Err(e) => return Probe::Error(format!("search: {e:#}")),
+      // An error from ONE request is not yet detection of the corruption: the other requests of the
+      // battery are still judged (a damaged index that answers some requests wrongly and rejects others
+      // returns different results for the former). Open/reader errors above do end the probe.
+      Err(_) => answers.push(json!({"__search_error__": true})),
     }
+  }
+  if answers.iter().all(|a| a.get("__search_error__").is_some()) {
+    return Probe::Error("search: every request of the battery returned an error".into());
   }
   // the log: recovered queue as the next writer would see it
   let storage = FsStorage::new(root.to_path_buf());
@@ -189,7 +198,7 @@ fn worker(a: &[String]) -> i32 {
   let only: Option<usize> = a.get(7).and_then(|s| s.parse().ok());
   let files = list_files(&backup);
   let cases = enumerate(&files, quick);
-  let baseline = match vcore::ctx::catch(|| probe(&root)) {
+  let baseline = match vcore::ctx::catch(|| probe(&root, false)) {
     Ok(Probe::Answers(v)) => v,
     other => {
       let _ = std::fs::write(&out, json!({"fatal": format!("baseline probe failed: {other:?}")}).to_string() + "\n");
@@ -235,8 +244,16 @@ fn worker(a: &[String]) -> i32 {
       data.truncate(t);
     }
     std::fs::write(root.join(&c.file), &data).unwrap();
-    let r = vcore::ctx::catch(|| probe(&root));
+    // open flag alternates; the manifest (the file `create_if_missing` is about) is probed both ways and
+    // the worse outcome counts
+    let flag = i % 2 == 1;
+    let mut r = vcore::ctx::catch(|| probe(&root, flag));
     restore_all(&root);
+    if c.file == "MANIFEST.json" && matches!(r, Ok(Probe::Error(_))) {
+      std::fs::write(root.join(&c.file), &data).unwrap();
+      r = vcore::ctx::catch(|| probe(&root, !flag));
+      restore_all(&root);
+    }
     let kind = if c.flip.is_some() { "flip" } else { "trunc" };
     let (outcome, detail): (String, Value) = match r {
       Err(p) => (format!("panic:{}", vcore::ctx::panic_site(&p)), json!(p)),
@@ -259,12 +276,17 @@ fn worker(a: &[String]) -> i32 {
         } else {
           // which part differs
           let mut diffs = Vec::new();
+          // requests that returned an error do not count as "different results"
           for (k, (a, b)) in v["answers"].as_array().unwrap_or(&vec![]).iter().zip(baseline["answers"].as_array().unwrap_or(&vec![]).iter()).enumerate() {
-            if a != b {
+            if a != b && a.get("__search_error__").is_none() {
               diffs.push(k);
             }
           }
-          ("silent-difference".into(), json!({"battery_items_differing": diffs, "pending_differs": v["pending"] != baseline["pending"]}))
+          if diffs.is_empty() && v["pending"] == baseline["pending"] {
+            ("detected".into(), Value::Null)
+          } else {
+            ("silent-difference".into(), json!({"battery_items_differing": diffs, "pending_differs": v["pending"] != baseline["pending"]}))
+          }
         }
       }
     };
@@ -317,7 +339,7 @@ fn main() {
   }
   let mut ctx = Ctx::from_args("C17", "fault_enumeration", &args);
   let quick = ctx.quick();
-  ctx.rule = "small committed indexes (3-12 docs, 1-3 segments, deletions, with/without queued log records); for every file: xor of every byte with masks 0x01/0x20/0x80/0xFF and every truncation length (thorough), or every 3rd byte with a rotating mask + all header bytes + sampled truncations (quick); each corruption is applied in place at the original path inside a sandboxed worker (4 GiB address-space limit, watchdog), probed with Index::open -> reader -> 7-request battery (stored fields, scores, filter, sort, aggregations) -> Wal::last_pending_ops -> writer(), then undone. evaluations = corruptions probed; distinct_nontrivial = distinct (file kind, corruption kind, outcome class, offset bucket) combinations.".into();
+  ctx.rule = "small committed indexes (3-12 docs, 1-3 segments, deletions, with/without queued log records); for every file: xor of every byte with masks 0x01/0x20/0x80/0xFF and every truncation length (thorough), or every 3rd byte with a rotating mask + all header bytes + sampled truncations (quick); each corruption is applied in place at the original path inside a sandboxed worker (4 GiB address-space limit, watchdog), probed with Index::open (create_if_missing alternating, both ways for the manifest) -> reader -> 7-request battery (stored fields, scores, filter, sort, aggregations) -> Wal::last_pending_ops -> writer(), then undone. evaluations = corruptions probed; distinct_nontrivial = distinct (file kind, corruption kind, outcome class, offset bucket) combinations.".into();
   ctx.assumptions = vec![
     "acceptable outcomes: an error at any stage, or answers identical to the uncorrupted baseline; for wal.log additionally a recovered queue that is a prefix of the original one".into(),
     "indexes are produced by normal operation (the log holds only queued records, no stale commit markers)".into(),
@@ -417,7 +439,9 @@ fn main() {
       let file = v["file"].as_str().unwrap_or("?").to_string();
       let outcome = v["outcome"].as_str().unwrap_or("?").to_string();
       let kind = if v["flip"].is_null() { "trunc" } else { "flip" };
-      let sig = if file == "MANIFEST.json" && outcome == "silent-difference" {
+      // the listed finding is about BYTE CHANGES that keep the manifest valid JSON; a truncated manifest
+      // is never valid JSON with a different meaning, so a silent difference after a truncation is new
+      let sig = if file == "MANIFEST.json" && outcome == "silent-difference" && kind == "flip" {
         // MANIFEST.json carries no integrity protection: classify by the member whose value changed meaning
         l.count(&format!("manifest_silent_difference_member[{}]", manifest_member(v["context"].as_str().unwrap_or(""))), 1);
         "manifest-unprotected:silent-difference".to_string()
